@@ -62,6 +62,13 @@ impl Dimensionality {
         self
     }
 
+    pub fn pow(mut self, exp: i64) -> Dimensionality {
+        for (_, power) in self.dims.iter_mut() {
+            *power *= exp;
+        }
+        self
+    }
+
     /// None if a power doesn't fit.
     pub fn checked_pow(mut self, exp: i64) -> Option<Dimensionality> {
         for (_, power) in self.dims.iter_mut() {
